@@ -31,8 +31,18 @@ func numericMembers(tier string, cfg gen.Config) []member {
 }
 
 func c05Families(c *core.Ctx) {
-	rules := ruleSet("A-REJ", "A-NOEXTRA", "A-NILG")
-	for _, mb := range numericMembers(c.Tier, gen.DefaultConfig()) {
+	rules := ruleSet("A-REJ", "A-NOEXTRA", "A-NILG", "A-DEF")
+	ms := numericMembers(c.Tier, gen.DefaultConfig())
+	// bounded numerics that also carry a default: an absent value must be checked as the default, i.e. after it is applied
+	for _, kind := range []string{"integer", "number"} {
+		for _, kws := range [][]string{{"minimum"}, {"maximum", "multipleOf"}, {"minimum", "maximum"}} {
+			for _, pos := range []string{"optional", "required"} {
+				sp := &fam.Spec{Kind: kind, Kw: kws, Default: "scalar"}
+				ms = append(ms, member{name: kind + " with default " + pos + " " + sp.String(), cfg: gen.DefaultConfig(), root: place(sp, pos)})
+			}
+		}
+	}
+	for _, mb := range ms {
 		runMember(c, mb, rules, 64, func(w *fam.World, fm *fam.FileModel) []fam.Issue {
 			return w.CheckObject(fm, w.Spec, "", "root")
 		})
